@@ -30,7 +30,7 @@ package sshfx
 //@ func (encoding/binary.bigEndian).PutUint32
 //@   trusted
 //@   requires len(b) >= 4
-//@   modifies bytes
+//@   modifies bytesof b
 
 // ---------------------------------------------------------------------------
 // Buffer (buffer.go)
